@@ -42,7 +42,7 @@ func main() {
 	}
 	slots := gram.Slots(run)
 	// the "r" configurations use rich operands: sub-query, EXISTS, array subscript and interval atoms
-	cfgs := []string{"Grammar_1.cfg", "Grammar_2.cfg", "Grammar_1r.cfg", "Grammar_2r.cfg"}
+	cfgs := []string{"Grammar_1.cfg", "Grammar_2.cfg", "Grammar_1s.cfg", "Grammar_2s.cfg", "Grammar_1r.cfg", "Grammar_2r.cfg"}
 	if tier == "thorough" {
 		cfgs = append(cfgs, "Grammar_3.cfg")
 	}
